@@ -202,6 +202,9 @@ func (g *Gates) ReleaseAll() {
 type Scenario struct {
 	Name string
 	Run  func(t *testing.T, rec *Rec, g *Gates)
+	// NoBubble: run with real goroutines and the real clock (lock-based code: a goroutine
+	// blocked on a sync.Mutex is not durably blocked, so a bubble's clock would never advance).
+	NoBubble bool
 }
 
 // Exit statuses of a worker process.
@@ -241,6 +244,12 @@ func RunScenario(t *testing.T, out *Out, idx int, sc Scenario, wallBudget time.D
 				out.Count("bubble_panics", 1)
 			}
 		}()
+		if sc.NoBubble {
+			rec.start = time.Now()
+			sc.Run(t, rec, NewGates(rec))
+			rec.Log("end")
+			return
+		}
 		synctest.Test(t, func(t *testing.T) {
 			rec.start = time.Now()
 			g := NewGates(rec)
